@@ -30,6 +30,12 @@ CLAIMED = {
          "Strings of 8 (base32) and 4 (T: 8) (base64) characters with CR/LF excluded by assumption; megabyte inputs of the limit harness reach a stubbed coder (only the guard is decided)."),
  "C15": ("Bounded symbolic model checking through the real time package: header times for all 2^32 x 2^16 field values, lease end dates, NewLease2 range check over all instants, newest/oldest expiration membership and bounds, IsExpired with a symbolic clock; the x/÷-by-constant kernels are decided by cvc5 --solve-bv-as-int=iand with a z3 mirror session.",
          "Newest/oldest on 1..2 leases (T: 4); clock = any instant 2001..2096 with at most one hour drift between calls; dates below 2^63."),
+ "C04": ("Bounded symbolic model checking with panics as implicit obligations of the executor (index/slice bounds, nil dereference, failed type assertion, division by zero, explicit panic) and loop/instruction caps for termination: all parser/decoder harnesses (free-form and shape-guided), parsers with free count bytes, constructors with free 64-bit type arguments, and every exported method (generated from the current API) on every value returned without error.",
+         "Input lengths as stated per harness (free-form <= 22 bytes, structures up to their size + 8 bytes); not 'several times the largest structure'. String()-style formatting is swept on concrete content only. A feasible panic is replayed natively before it is reported."),
+ "C19": ("Bounded symbolic model checking of pairs of equivalent entry points on the same symbolic input: equal acceptance, equal serialisation, equal remainder.",
+         "Generic vs fast-path keys-and-cert readers within the fast paths' key types; pointer vs value readers; key certificate from bytes / certificate / types / builder / payload helper; certificate builder vs constructor; the three signature constructors; string and integer constructors."),
+ "C20": ("Exhaustive enumeration of (exported type, exported method) pairs of the current API on zero values (generated per run through go/types; executed by the symbolic executor so that the panic site and the replay are uniform), plus bounded symbolic checking of the partial values parsers return together with an error for truncated encodings.",
+         "Zero-value part: complete for the API at check time (27 types, 278 pairs on the unchanged tree); methods whose parameters have no nd generator are listed in the generated file. Failed-parse part: two shapes per structure, cut points at field boundaries."),
 }
 NA_REASON = "check under construction in this session; it will be claimed once its harnesses run clean on the unchanged tree"
 
